@@ -114,13 +114,15 @@ theorem cws_psV5Connect (c : C) (p : Pkt) (h : NotPub p) : CWS c (psV5Connect c 
 theorem cws_connackTail (c0 c : C) (p : Pkt) (h0 : CWS c0 c) :
     CWS c0 (if p.rc ≠ some 0 then
       (cancelTimers { c with s := { c.s with status := .disconnected } }).push .close
-    else sendPostProcess (sendStored { c with s := { c.s with status := .connected } })) := by
+    else sendPostProcess (if p.sp then sendStored { c with s := { c.s with status := .connected } }
+      else clearStoreRelated { c with s := { c.s with status := .connected } })) := by
   let ca : C := { c with s := { c.s with status := .disconnected } }
   have ha : CWS c0 ca := CWS.upd _ h0 (Or.inl rfl) rfl
   let cb : C := { c with s := { c.s with status := .connected } }
   have hb : CWS c0 cb := CWS.upd _ h0 (Or.inl rfl) rfl
   exact CWS.ite (CWS.trans (CWS.trans ha (cws_cancelTimers ca)) (cws_push_other _ _ rfl))
-    (CWS.trans (CWS.trans hb (cws_sendStored cb)) (cws_sendPostProcess _))
+    (CWS.trans (CWS.ite (CWS.trans hb (cws_sendStored cb)) (CWS.trans hb (cws_clearStoreRelated cb)))
+      (cws_sendPostProcess _))
 
 theorem cws_psV3Connack (c : C) (p : Pkt) (h : NotPub p) : CWS c (psV3Connack c p) := by
   unfold psV3Connack
